@@ -11,19 +11,19 @@ PROPS = {
     "C01": {
         "lean_module": "SplProofs.C01",
         "streams": ["C01"],
-        "rule": "stream tlvhist: histories from a zeroed buffer (sizes 0..300, weighted to exact fit and +-1..12 around it) over an adversarial 8-tag palette and value sizes 0/1/3/5(non-zero default)/8/32 and variable lengths: alloc +-repetition, init_value, realloc to 0 / same / exact fit / fit+1 / > u32::MAX, byte and typed writes through the mutable views, var-len pack (streaming packer), alloc_and_pack, lookups, get_discriminators, reopen through the three views; the generator steers towards failing operations at every state; after every op the raw buffer, returned slice range (pointer arithmetic) and repetition number are compared with the model and with a shadow Vec<(tag, Vec<u8>)> + independent canonical encoder;  non-trivial = history with >= 2 successful mutations on >= 2 entries and a resize/write that is not on the last entry",
+        "rule": "stream tlvhist: histories from a zeroed buffer (sizes 0..300, weighted to exact fit and +-1..12 around it) over an adversarial 8-tag palette and value sizes 0/1/3/5(non-zero default)/8/32 and variable lengths: alloc +-repetition, init_value, realloc to 0 / same / exact fit / fit+1 / > u32::MAX, byte and typed writes through the mutable views, var-len pack (streaming packer), alloc_and_pack, lookups (incl. the get_first_* / *_first_* wrappers for repetition 0), get_discriminators, reopen through the three views; the generator steers towards failing operations at every state; after every op the raw buffer, returned slice range (pointer arithmetic) and repetition number are compared with the model and with a shadow Vec<(tag, Vec<u8>)> + independent canonical encoder;  non-trivial = history with >= 2 successful mutations on >= 2 entries and a resize/write that is not on the last entry",
         "assumptions": COMMON_ASSUME + ["type tags are 8-byte non-zero discriminators", "typed reads/writes use align-1 Pod types"],
     },
     "C03": {
         "lean_module": "SplProofs.C03",
         "streams": ["C03"],
-        "rule": "stream tlvhist: histories from a zeroed buffer (sizes 0..300, weighted to exact fit and +-1..12 around it) over an adversarial 8-tag palette and value sizes 0/1/3/5(non-zero default)/8/32 and variable lengths: alloc +-repetition, init_value, realloc to 0 / same / exact fit / fit+1 / > u32::MAX, byte and typed writes through the mutable views, var-len pack (streaming packer), alloc_and_pack, lookups, get_discriminators, reopen through the three views; the generator steers towards failing operations at every state; after every op the raw buffer, returned slice range (pointer arithmetic) and repetition number are compared with the model and with a shadow Vec<(tag, Vec<u8>)> + independent canonical encoder;  raw bytes compared byte-for-byte with an independent encoder of the logical entry list after every step; non-trivial as C01",
+        "rule": "stream tlvhist: histories from a zeroed buffer (sizes 0..300, weighted to exact fit and +-1..12 around it) over an adversarial 8-tag palette and value sizes 0/1/3/5(non-zero default)/8/32 and variable lengths: alloc +-repetition, init_value, realloc to 0 / same / exact fit / fit+1 / > u32::MAX, byte and typed writes through the mutable views, var-len pack (streaming packer), alloc_and_pack, lookups (incl. the get_first_* / *_first_* wrappers for repetition 0), get_discriminators, reopen through the three views; the generator steers towards failing operations at every state; after every op the raw buffer, returned slice range (pointer arithmetic) and repetition number are compared with the model and with a shadow Vec<(tag, Vec<u8>)> + independent canonical encoder;  raw bytes compared byte-for-byte with an independent encoder of the logical entry list after every step; non-trivial as C01",
         "assumptions": COMMON_ASSUME + ["type tags are 8-byte non-zero discriminators"],
     },
     "C04": {
         "lean_module": "SplProofs.C04",
         "streams": ["C04"],
-        "rule": "stream tlvhist: histories from a zeroed buffer (sizes 0..300, weighted to exact fit and +-1..12 around it) over an adversarial 8-tag palette and value sizes 0/1/3/5(non-zero default)/8/32 and variable lengths: alloc +-repetition, init_value, realloc to 0 / same / exact fit / fit+1 / > u32::MAX, byte and typed writes through the mutable views, var-len pack (streaming packer), alloc_and_pack, lookups, get_discriminators, reopen through the three views; the generator steers towards failing operations at every state; after every op the raw buffer, returned slice range (pointer arithmetic) and repetition number are compared with the model and with a shadow Vec<(tag, Vec<u8>)> + independent canonical encoder;  plus histories that start from openable but non-canonical buffers (entries, terminator, garbage); non-trivial = history that reaches a state with >= 1 entry and executes >= 1 failing mutation there",
+        "rule": "stream tlvhist: histories from a zeroed buffer (sizes 0..300, weighted to exact fit and +-1..12 around it) over an adversarial 8-tag palette and value sizes 0/1/3/5(non-zero default)/8/32 and variable lengths: alloc +-repetition, init_value, realloc to 0 / same / exact fit / fit+1 / > u32::MAX, byte and typed writes through the mutable views, var-len pack (streaming packer), alloc_and_pack, lookups (incl. the get_first_* / *_first_* wrappers for repetition 0), get_discriminators, reopen through the three views; the generator steers towards failing operations at every state; after every op the raw buffer, returned slice range (pointer arithmetic) and repetition number are compared with the model and with a shadow Vec<(tag, Vec<u8>)> + independent canonical encoder;  plus histories that start from openable but non-canonical buffers (entries, terminator, garbage); non-trivial = history that reaches a state with >= 1 entry and executes >= 1 failing mutation there",
         "assumptions": COMMON_ASSUME + ["type tags are 8-byte non-zero discriminators"],
     },
     "C02": {
@@ -74,14 +74,14 @@ PROPS = {
         "lean_module": "SplProofs.C09",
         "streams": ["C09"],
         "rule": "stream lvhist: histories of init / push / remove(i) / set / sort (3 comparators incl. one that only looks at the first byte, to observe stability) / reopen / bytes_used / "
-                "bytes_allocated over 10 element types (incl. size 12 / align 4 and size 24 / align 8) x 4 prefix types at aligned offsets of a 16-aligned arena, capacities 0..6, initial buffers zeroed or garbage, full buffer compared after every op, "
+                "bytes_allocated over 10 element types (incl. size 12 / align 4 and size 24 / align 8) x 6 prefix types (PodU16/32/64/128, the one-byte u8, and the 2-aligned primitive u16 which must always be rejected) at aligned offsets of a 16-aligned arena, capacities 0..6, initial buffers zeroed or garbage, full buffer compared after every op, "
                 "shadow Vec oracle; plus the prefix-maximum histories (u8 elements, 16-bit prefix, capacity 65535/65536, length 65534 -> 65535 -> overflow); non-trivial = history with >= 2 successful and >= 1 failing op",
         "assumptions": COMMON_ASSUME + ["capacity < usize::MAX (buffers are smaller than the address space)"],
     },
     "C10": {
         "lean_module": "SplProofs.C10",
         "streams": ["C10"],
-        "rule": "stream lv: 10 element types ((1,1) (2,2) (3,1) (4,4) (8,8) (16,16) (35,1) zero-sized, and (12,4) (24,8) whose size is a proper multiple of the alignment) x 4 prefix types (16/32/64/128-bit), buffers placed at start offsets 0..15 of a "
+        "rule": "stream lv: 10 element types ((1,1) (2,2) (3,1) (4,4) (8,8) (16,16) (35,1) zero-sized, and (12,4) (24,8) whose size is a proper multiple of the alignment) x 6 prefix types (16/32/64/128-bit Pod integers, one-byte u8, and the 2-aligned primitive u16 which must always be rejected), buffers placed at start offsets 0..15 of a "
                 "16-aligned arena: all-0xff buffers (the prefix type's maximum), every length 0..header+1, random buffers with capacity 0..5, slop bytes, stored length <= cap / cap+1 / "
                 "2^64..2^64+2 / 2^128-1; read-only and mutable opening compared, element address range checked against the arena, size_of incl. overflow; non-trivial = buffer at least header-sized",
         "assumptions": COMMON_ASSUME + ["element alignment <= 16 in the stream (the theorem covers every alignment up to 2^29)"],
@@ -109,7 +109,7 @@ PROPS = {
         "streams": ["C13"],
         "extra": [pod_features],
         "rule": "stream pod: bool byte / u16 / i16 exhaustively, boundary+random u32/u64/i64/u128 (each compared with to_le_bytes and with the primitive's own "
-                "borsh/serde_json/wincode encoding), byte casts and slice casts of every length 0..64 for every Pod type (aliasing checked by pointer), "
+                "borsh/serde_json/wincode encoding), byte casts and slice casts (immutable and mutable twins) of every length 0..64 for every Pod type (aliasing checked by pointer), by-value and by-reference bool conversions, Borsh/Wincode/Serde round trips, pod_get_packed_len, "
                 "usize conversions around every width boundary; non-trivial = value not in {0,1,-1} / non-empty cast input; plus cargo check of spl-pod feature subsets "
                 "(quick: none, bytemuck, all; thorough: all 16)",
         "trusted": ["borsh / serde_json / wincode / bytemuck are modelled (expected encoding = little-endian bytes, decimal text, true/false) and validated by the stream"],
@@ -119,7 +119,7 @@ PROPS = {
         "lean_module": "SplProofs.C14",
         "streams": ["C14"],
         "rule": "stream podoption: T = Address (none value, all 256 single-bit patterns, values differing from the none marker only in a late byte, random) and "
-                "a 64-bit wrapper with 0 as none; Option, COption, From<T>, byte cast, Borsh, Serde (incl. JSON of Some(none-value) fed to the deserialiser); "
+                "a 64-bit wrapper with 0 as none; Option, COption, From<T>, as_ref/as_mut/copied/cloned, byte cast, Borsh, Serde through JSON and through bincode (a non-human-readable format; Some(none-value) fed to both deserialisers); "
                 "non-trivial = wrapped value differs from the none value",
         "trusted": ["borsh / serde_json encodings of the wrapped value are modelled as the identity wrapper and validated by the stream"],
         "assumptions": COMMON_ASSUME,
@@ -130,7 +130,7 @@ PROPS = {
         "extra": [macro_lab_c18],
         "rule": "stream disc: random Unicode strings (all planes, combining marks, controls, whitespace at both ends, quotes, backslashes, empty, up to 4 KiB) rendered to attribute "
                 "source text with random valid rendering choices (raw strings with # fences, \\x \\u{…} with underscores/padding, \\n \\t \\0, line continuations); the real "
-                "discriminator-syn builder is run in-process on `#[discriminator_hash_input(<literal>)] struct S;`, its emitted byte string is compared with new_with_hash_input, with the sha2 "
+                "discriminator-syn builder is run in-process on `#[discriminator_hash_input(<literal>)] struct S;` and on an enum, through TryFrom and through its Parse/ToTokens impls (all must agree; an item without the attribute must be rejected), its emitted byte string is compared with new_with_hash_input, with the sha2 "
                 "crate and with the model fed the same source text; conversions over all slice lengths 0..32 and boundary/random u64; non-trivial = non-ASCII char, escape or edge whitespace",
         "trusted": ["SHA-256: the Lean implementation is validated against sha2 on every case (not proved)", "syn's LitStr::value is modelled by SplModel/RustLit.lean and validated by the stream"],
         "assumptions": COMMON_ASSUME,
@@ -170,7 +170,7 @@ PROPS = {
     "C17": {
         "lean_module": "SplProofs.C17",
         "streams": ["C17"],
-        "rule": "stream tok: boundary enumeration of layout lengths x marker bytes x both ids, then random buffers (lengths 0..600 weighted to "
+        "rule": "stream tok: public constants and id helpers vs the regenerated model constants, the native mint's canned data, boundary enumeration of layout lengths x marker bytes x both ids, then random buffers (lengths 0..600 weighted to "
                 "82/165/166/355 neighbours, special bytes at 44/45/108/165) x program ids (real, one-bit near misses, random); non-trivial = "
                 "buffer of a layout length (82 or >=165); distinct by hash of the case line",
         "assumptions": COMMON_ASSUME,
